@@ -247,12 +247,7 @@ func depCanon(r *engine.Run) {
 		if f == nil {
 			continue
 		}
-		var nodeParam ssa.Value
-		for _, p := range f.Params {
-			if p.Name() == "node" {
-				nodeParam = p
-			}
-		}
+		nodeParam := paramRole(f, "node")
 		arms := typeArms(f, nodeParam)
 		arm := arms["FullNode"]
 		if arm == nil {
@@ -336,12 +331,7 @@ func agreeSplit(r *engine.Run) {
 	n := 0
 	for _, f := range mptFuncs(r) {
 		o := ord{}
-		var prefixParam ssa.Value
-		for _, p := range f.Params {
-			if p.Name() == "prefix" {
-				prefixParam = p
-			}
-		}
+		prefixParam := paramRole(f, "prefix")
 		baseOK := func(b ssa.Value) (bool, ssa.Value) {
 			if prefixParam != nil && b == prefixParam {
 				return true, nil
